@@ -58,8 +58,8 @@ structure MergeInput where
 
 /-! ## names (common/schema.go) -/
 
-/-- `common.IsBuiltinName` -/
-def isBuiltinName (s : String) : Bool := s.startsWith builtinPrefix
+/-- `common.IsBuiltinName`: `strings.HasPrefix(s, "__")` (on character lists, so that the kernel can evaluate it) -/
+def isBuiltinName (s : String) : Bool := builtinPrefix.toList.isPrefixOf s.toList
 /-- `common.IsRootObjectName` -/
 def isRootName (s : String) : Bool := s == queryName || s == mutationName || s == subscriptionName
 
